@@ -69,6 +69,10 @@ def evaluate(d, args):
             rc, out, _ = sh(cmd, cwd=tree, env={"PYTHONPATH": tree})
             res["tests_exit"] = rc
             res["tests_tail"] = out.strip().splitlines()[-1][:200] if out.strip() else ""
+        else:
+            prev = meta.get("verified", {})
+            if "tests_exit" in prev:        # the suite verdict of the earlier evaluation of the same patch is kept
+                res["tests_exit"], res["tests_tail"] = prev["tests_exit"], prev.get("tests_tail", "")
         res["checks"] = {}
         for cid in checks:
             for tier in (["quick", "thorough"] if not args.tier_only else [args.tier_only]):
